@@ -347,6 +347,21 @@ static void caseC10(uint64_t idx, vh::Rng& g)
 			if (!sub) R->violation("C10/candidate/not-sublanguage", "");
 			if (nea && !ne) R->violation("C10/candidate/empty-witness", "language non-empty, witness empty");
 		}
+		if (g.chance(1, 3))
+		{	// an object that is used, then ASSIGNED another automaton, then used again: whatever the object remembers of
+			// its earlier content (side tables, memoised results) must go with the assignment (seeded change m89)
+			R->phase("operations on a reassigned object"); R->count("reassigned-object");
+			FA w = A; { FA t1 = w.RemoveUselessStates(), t2 = w.RemoveUnreachableStates(), t3 = w.Reverse(), t4 = w.GetCandidateTree(), t5 = FA::Intersection(w, B); (void)t1; (void)t2; (void)t3; (void)t4; (void)t5; }
+			if (g.chance(1, 3)) { FA tmp = B; w = std::move(tmp); } else w = B;
+			same("reassigned/useless", b, faObserve(w.RemoveUselessStates()));
+			same("reassigned/unreach", b, faObserve(w.RemoveUnreachableStates()));
+			same("reassigned/reverse", rm::mirror(b), faObserve(w.Reverse()));
+			{ RFA u = faObserve(w.GetCandidateTree()); rm::JointW K = rm::jointWord({&b, &u}, nsym); bool ne = false, neb = false, sub = true;
+			  for (auto& m : K.reach) { if (K.acc(m, 1) && !K.acc(m, 0)) sub = false; if (K.acc(m, 1)) ne = true; if (K.acc(m, 0)) neb = true; }
+			  if (!sub) R->violation("C10/reassigned/candidate/not-sublanguage", ""); if (neb && !ne) R->violation("C10/reassigned/candidate/empty-witness", ""); }
+			bin("reassigned/union", b, a, faObserve(FA::Union(w, A)), true); bin("reassigned/isect", b, a, faObserve(FA::Intersection(w, A)), false);
+			if (!(faObserve(w) == b0)) R->violation("C10/reassigned/content", "the reassigned object does not dump like the automaton it was assigned");
+		}
 		// operands unchanged (as dumps)
 		if (!(faObserve(A) == a0) || !(faObserve(B) == b0)) R->violation("C10/operand-changed", "");
 		if (g.chance(1, 5))
